@@ -14,6 +14,15 @@ CLAIMS = {
         '(3, 4, 6: crossing the growth steps); n, index, rc, contents and the aliasing choice (argument is an element of the same array) are symbolic. Every unit is therefore a bounded stand-in (bounded by capacity), not a proof for all capacities.',
    note=TB + 'Claimed at level other because every C01 unit is capacity-bounded. Histories: induction over the proved mutators (paper step). Not decided: sort, slice/concat/filter/map templates, String elements, Stack/Queue wrappers beyond resize/remove, all capacities at once. Known finding: growth while the block is shared.',
    technique='CBMC code contracts (DFCC) on extracted template bodies, capacity fixed per variant'),
+ 'C02': dict(level='other', design='6 C02',
+   text='nextPoT proved for all n (bucket index always in range). Map::indexOf, set/operator(), remove, operator== verified as finite-map operations on every strictly sorted map of up to 8 int keys '
+        '(sortedness is a quantified hypothesis: constant bound). HashMap::remove, operator[] on a bucket chain of up to 3 colliding nodes: exactly the addressed node is unlinked/appended, all other colliding entries stay reachable, node freed once, length +-1.',
+   note=TB + 'Level other: all functional units are bounded (<= 8 keys, chains <= 3). Not decided: rehash (table growth), HashMap/Set operator== (fixed natively, no CBMC unit), Set algebra, String keys, clone/merge. Histories by induction over the proved operations.',
+   technique='CBMC code contracts (DFCC) with constant-bound sortedness / chain shape'),
+ 'C20': dict(level='proof', design='6 C20',
+   text='Algebraic clause only: the expression text of Matrix4/Matrix3 inverse() and det() is parsed on every run; A*adj = adj*A = d*I entrywise (so d != 0 implies M*inverse(M) = I), det() = Leibniz determinant = d, det(AB) = det(A)det(B); each is an SMT query that is unsat on z3 4.8, z3 5.1 and cvc5.',
+   note='Trusted: the 100-line expression parser/VC generator in vf/vcgen.py, z3, cvc5. Floating point treated as real arithmetic. NOT decided: solve(), least squares, floating residual bounds, quaternion/axis-angle/Euler conversions.',
+   technique='own VC generator over the extracted expression text + SMT (QF_NRA) on three solvers'),
  'C03': dict(level='proof', design='6 C03',
    text='Contracts (requires/ensures/assigns/frees) on the real bodies of String::resize, append, assign, concat, substring, substr, '
         'operator+=(char), String(const char*,int), copy constructor, String(int), String(Long) (+ alloc/init/str/String(cap,n) inlined), '
